@@ -58,12 +58,26 @@ Print Assumptions C11_same_domain_ip_iff.
 Theorem C11_domain_name_labels : forall a,
   wf_authority a = true -> ip_authority a = false ->
   get_domain (render_authority a) =
-    match split_byte dot (to_lower (host_text (a_host a))) with
+    let h := trim_suffix_byte dot (to_lower (host_text (a_host a))) in
+    match split_byte dot h with
     | _ :: ((_ :: _ :: _) as rest) => join_with [dot] rest
-    | _ => to_lower (host_text (a_host a))
+    | _ => h
     end.
 Proof. exact domain_name_labels. Qed.
 Print Assumptions C11_domain_name_labels.
+
+(* the dot that ends a fully qualified name is not a label (round-7 repair): example.com. is in the
+   domain example.com, SameDomain from example.com. refuses evil.com.; the code before the repair
+   (get_domain_dotted) put both in "com." *)
+Theorem C11_trailing_dot_is_not_a_label :
+  get_domain (bs "example.com.") = bs "example.com" /\
+  get_domain (bs "www.Example.com.:443") = bs "example.com" /\
+  get_domain (bs "example.com") = bs "example.com" /\
+  permits PSameDomain (bs "evil.com.") [bs "example.com."] = false /\
+  get_domain_dotted (bs "example.com.") = bs "com." /\
+  get_domain_dotted (bs "evil.com.") = bs "com.".
+Proof. exact trailing_dot_examples. Qed.
+Print Assumptions C11_trailing_dot_is_not_a_label.
 
 (* "IP literal" is netip.ParseAddr's verdict: boundary literals kept checked against the model of
    its algorithm (the same strings are compared with the real netip in the harness) *)
